@@ -431,7 +431,7 @@ func (w *World) VerifyFunc(fs *FuncSpec) {
 			x.oblige(s, "ensures", fmt.Sprintf("#%d", n), c.Text, fn.Pos(), t)
 		}
 		// reachability cover of this return
-		co := &Obligation{Name: fmt.Sprintf("%s/cover-return%s", fi.Key, s.retTag), Path: strings.Join(s.path, ""), Func: fi.Key, Kind: "cover", Hyps: append([]*Term(nil), s.hyps...), Goal: False, Cover: true, Hints: x.hints, Text: "return reachable"}
+		co := &Obligation{Name: fmt.Sprintf("%s/cover-return%s", fi.Key, s.retTag), Path: strings.Join(s.path, ""), Func: fi.Key, Kind: "cover", Hyps: append([]*Term(nil), s.hyps...), Goal: False, Cover: true, Hints: saved, Text: "return reachable"}
 		w.Obls = append(w.Obls, co)
 	}
 	if len(fn.Blocks) == 0 {
